@@ -152,8 +152,14 @@ def r3(ctx):
               and _before(b, (m[0], m[1]), (v[0], v[1])) and (m[0], m[1]) != (v[0], v[1]),
               "variance from the NEW M and the count", got=render(v[2]), key="variance")
     rsd = render(sd[2])
-    ctx.check("Dispersion::update", "Decimal::abs(self.variance)" in rsd and "sqrt" in rsd and _before(b, (v[0], v[1]), (sd[0], sd[1])),
-              "standard deviation = sqrt(|NEW variance|)", got=rsd[:160], key="std-dev")
+    # exactly the library square root of the new variance (the `expect` / `unwrap` around it only asserts non-negativity): an
+    # approximation of the workspace's own (iteration cap, seeded from the previous root) is a different number
+    core = sd[2]
+    while core[0] == "call" and mir.short(core[1]) in ("Option::expect", "Option::unwrap", "Option::unwrap_or_default") and core[2]:
+        core = core[2][0]
+    ctx.check("Dispersion::update", render(core) in ("MathematicalOps::sqrt(Decimal::abs(self.variance))", "MathematicalOps::sqrt(self.variance)")
+              and _before(b, (v[0], v[1]), (sd[0], sd[1])),
+              "standard deviation = sqrt(|NEW variance|), the exact library root", got=rsd[:200], key="std-dev")
 
 
 def r4(ctx):
